@@ -503,9 +503,9 @@ async fn collect_body(body: Body) -> Vec<Result<Bytes, Bytes>> {
 }
 
 async fn transport<E: FromServerFnError>(req: LoopReq) -> Result<LoopRes, E> {
-    let (canned, req_mut, res_mut) = TRANSPORT.with(|t| {
+    let (canned, req_mut, res_mut, form) = TRANSPORT.with(|t| {
         let t = t.borrow();
-        (t.canned.clone(), t.req_mut.clone(), t.res_mut.clone())
+        (t.canned.clone(), t.req_mut.clone(), t.res_mut.clone(), t.form.clone())
     });
     let LoopReq { method, path, mut query, content_type, accepts, body } = req;
     let mut body: Vec<u8> = match body {
@@ -531,22 +531,33 @@ async fn transport<E: FromServerFnError>(req: LoopReq) -> Result<LoopRes, E> {
         Some(q) => format!("{path}?{q}"),
         None => path.clone(),
     };
-    let request = Request::builder()
-        .method(method)
-        .uri(uri)
-        .header(http::header::CONTENT_TYPE, content_type)
-        .header(http::header::ACCEPT, accepts)
+    let mut builder = Request::builder().method(method).uri(uri).header(http::header::CONTENT_TYPE, content_type);
+    builder = match &form {
+        // what a browser sends for a plain `<form>` submission
+        Some(referer) => {
+            let b = builder.header(http::header::ACCEPT, "text/html,application/xhtml+xml,*/*;q=0.8");
+            match referer {
+                Some(r) => b.header(http::header::REFERER, r.as_str()),
+                None => b,
+            }
+        }
+        None => builder.header(http::header::ACCEPT, accepts),
+    };
+    let request = builder
         .body(Bytes::from(body))
         .map_err(|e| E::from_server_fn_error(ServerFnErrorErr::Request(e.to_string())))?;
     let res = dispatch(request).await;
     let status = res.status().as_u16();
-    let location = res
-        .headers()
-        .get(http::header::LOCATION)
-        .and_then(|v| v.to_str().ok())
-        .unwrap_or("")
-        .to_string();
+    let location_header = res.headers().get(http::header::LOCATION).and_then(|v| v.to_str().ok()).map(str::to_string);
+    let location = location_header.clone().unwrap_or_default();
     let mut chunks = collect_body(res.into_body()).await;
+    LAST_RES.with(|l| {
+        *l.borrow_mut() = Some(RawRes {
+            status,
+            location: location_header,
+            body: chunks.iter().flat_map(|c| c.clone().unwrap_or_else(|e| e).to_vec()).collect(),
+        })
+    });
     if let Some(m) = &res_mut {
         if let [Ok(b)] = chunks.as_slice() {
             chunks = vec![Ok(Bytes::from(mutate(m, b)))];
@@ -731,6 +742,13 @@ fn typed_body<E>(p: Payload, mode: u8, kind: u8, msg: String, mk: impl Fn(&str, 
 }
 
 macro_rules! typed_fn {
+    ($f:ident, $S:ident, $in:ident, $out:ident) => {
+        // no `endpoint`: the path is derived from the function name (prefix + "/" + name + hash)
+        #[server(name = $S, prefix = "/x", input = $in, output = $out, client = LoopClient, server = LoopServer)]
+        pub async fn $f(p: Payload, mode: u8, kind: u8, msg: String) -> Result<Payload, ServerFnError> {
+            typed_body(p, mode, kind, msg, |v, m| mk_n(v, m).unwrap())
+        }
+    };
     ($f:ident, $S:ident, $ep:literal, $in:ident, $out:ident) => {
         #[server(name = $S, prefix = "/api", endpoint = $ep, input = $in, output = $out, client = LoopClient, server = LoopServer)]
         pub async fn $f(p: Payload, mode: u8, kind: u8, msg: String) -> Result<Payload, ServerFnError> {
@@ -769,6 +787,247 @@ pub async fn t_cbor_app(p: Payload, mode: u8, code: i32, msg: String) -> Result<
         Err(AppErr::Custom { code, msg })
     }
 }
+
+// ------------------------------------------------------------------ macro options, middleware, more error types
+
+/// an application error type whose wire format is *binary* (CBOR)
+#[derive(Debug, Clone, PartialEq, serde::Serialize, serde::Deserialize)]
+pub enum BinErr {
+    Sfe(ServerFnErrorErr),
+    Custom { code: i32, msg: String },
+}
+impl Display for BinErr {
+    fn fmt(&self, f: &mut std::fmt::Formatter<'_>) -> std::fmt::Result {
+        write!(f, "{self:?}")
+    }
+}
+impl FromServerFnError for BinErr {
+    type Encoder = CborEncoding;
+    fn from_server_fn_error(value: ServerFnErrorErr) -> Self {
+        BinErr::Sfe(value)
+    }
+}
+
+#[server(name = TJsonBin, prefix = "/api", endpoint = "t_json_bin", input = Json, output = Json, client = LoopClient, server = LoopServer)]
+pub async fn t_json_bin(p: Payload, mode: u8, code: i32, msg: String) -> Result<Payload, BinErr> {
+    if mode == 0 {
+        Ok(p)
+    } else {
+        Err(BinErr::Custom { code, msg })
+    }
+}
+
+/// no `endpoint`: the path is `prefix + "/" + function name + hash`
+#[server(name = TDefaultPath, client = LoopClient, server = LoopServer)]
+pub async fn t_default_path(p: Payload, mode: u8, kind: u8, msg: String) -> Result<Payload, ServerFnError> {
+    typed_body(p, mode, kind, msg, |v, m| mk_n(v, m).unwrap())
+}
+
+/// a custom prefix and an endpoint written with leading slashes
+#[server(name = TPrefix, prefix = "/rpc/v1", endpoint = "//t_prefix", input = Cbor, output = Cbor, client = LoopClient, server = LoopServer)]
+pub async fn t_prefix(p: Payload, mode: u8, kind: u8, msg: String) -> Result<Payload, ServerFnError> {
+    typed_body(p, mode, kind, msg, |v, m| mk_n(v, m).unwrap())
+}
+
+/// no `name`: the argument struct is the PascalCase function name
+#[server(prefix = "/api", endpoint = "t_auto_name", input = GetUrl, output = Json, client = LoopClient, server = LoopServer)]
+pub async fn t_auto_name(p: Payload, mode: u8, kind: u8, msg: String) -> Result<Payload, ServerFnError> {
+    typed_body(p, mode, kind, msg, |v, m| mk_n(v, m).unwrap())
+}
+
+/// many top-level arguments, the macro's default encodings (`PostUrl` in, `Json` out)
+#[allow(clippy::too_many_arguments)]
+#[server(name = TMany, prefix = "/api", endpoint = "t_many", client = LoopClient, server = LoopServer)]
+pub async fn t_many(
+    id: u64,
+    small: i8,
+    text: String,
+    opt: Option<String>,
+    list: Vec<Inner>,
+    nums: Vec<u32>,
+    nested: Inner,
+    mode: u8,
+    kind: u8,
+    msg: String,
+) -> Result<Payload, ServerFnError> {
+    typed_body(Payload { id, small, text, opt, list, nums, nested }, mode, kind, msg, |v, m| mk_n(v, m).unwrap())
+}
+
+/// `#[server(default)]` arguments: absent keys fall back to `Default`, so the URL encodings can carry
+/// empty sequences; `#[server(rename = ..)]` changes the key on the wire
+#[allow(clippy::too_many_arguments)]
+#[server(name = TDefaults, prefix = "/api", endpoint = "t_defaults", input = GetUrl, output = Json, client = LoopClient, server = LoopServer)]
+pub async fn t_defaults(
+    id: u64,
+    small: i8,
+    #[server(rename = "txt")] text: String,
+    #[server(default)] opt: Option<String>,
+    #[server(default)] list: Vec<Inner>,
+    #[server(default)] nums: Vec<u32>,
+    nested: Inner,
+    mode: u8,
+    kind: u8,
+    msg: String,
+) -> Result<Payload, ServerFnError> {
+    typed_body(Payload { id, small, text, opt, list, nums, nested }, mode, kind, msg, |v, m| mk_n(v, m).unwrap())
+}
+
+/// no arguments at all
+#[server(name = NoArgsGet, prefix = "/api", endpoint = "noargs_get", input = GetUrl, output = Json, client = LoopClient, server = LoopServer)]
+pub async fn noargs_get() -> Result<String, ServerFnError> {
+    Ok("pong|\n".to_string())
+}
+#[server(name = NoArgsPost, prefix = "/api", endpoint = "noargs_post", client = LoopClient, server = LoopServer)]
+pub async fn noargs_post() -> Result<String, ServerFnError> {
+    Ok("pong|\n".to_string())
+}
+#[server(name = NoArgsCbor, prefix = "/api", endpoint = "noargs_cbor", input = Cbor, output = Cbor, client = LoopClient, server = LoopServer)]
+pub async fn noargs_cbor() -> Result<String, ServerFnError> {
+    Err(ServerFnError::ServerError("always|fails".into()))
+}
+
+/// pass-through middleware
+pub struct IdLayer;
+impl Layer<SReq, Response<Body>> for IdLayer {
+    fn layer(&self, inner: BoxedService<SReq, Response<Body>>) -> BoxedService<SReq, Response<Body>> {
+        inner
+    }
+}
+
+/// middleware that answers by itself — through the `ser` hook of the boxed service — when the hex body
+/// starts with `ff`, and otherwise hands the request on
+pub struct BlockLayer;
+struct BlockSvc(BoxedService<SReq, Response<Body>>);
+impl Service<SReq, Response<Body>> for BlockSvc {
+    fn run(
+        &mut self,
+        req: SReq,
+        ser: fn(ServerFnErrorErr) -> Bytes,
+    ) -> Pin<Box<dyn Future<Output = Response<Body>> + Send>> {
+        if req.0.body().starts_with(b"ff") {
+            let path = req.0.uri().path().to_string();
+            let err = ser(ServerFnErrorErr::MiddlewareError("blocked|by middleware".into()));
+            Box::pin(async move { <Response<Body> as Res>::error_response(&path, err) })
+        } else {
+            self.0.run(req)
+        }
+    }
+}
+impl Layer<SReq, Response<Body>> for BlockLayer {
+    fn layer(&self, inner: BoxedService<SReq, Response<Body>>) -> BoxedService<SReq, Response<Body>> {
+        BoxedService::new(inner.ser, BlockSvc(inner))
+    }
+}
+
+#[server(name = TMwId, prefix = "/api", endpoint = "t_mw_id", input = Json, output = Json, client = LoopClient, server = LoopServer)]
+#[middleware(IdLayer)]
+pub async fn t_mw_id(p: Payload, mode: u8, kind: u8, msg: String) -> Result<Payload, ServerFnError> {
+    typed_body(p, mode, kind, msg, |v, m| mk_n(v, m).unwrap())
+}
+
+#[server(name = HxMwId, prefix = "/api", endpoint = "hx_mw_id", input = HexPost, output = HexPost, client = LoopClient, server = LoopServer)]
+#[middleware(IdLayer)]
+pub async fn hx_mw_id(data: Vec<u8>) -> Result<Raw, ServerFnError> {
+    hex_body(data)
+}
+impl AsRaw for HxMwId {
+    fn raw(&self) -> &[u8] {
+        &self.data
+    }
+    fn from_raw(v: Vec<u8>) -> Self {
+        HxMwId { data: v }
+    }
+}
+
+#[server(name = HxMwBlock, prefix = "/api", endpoint = "hx_mw_block", input = HexPost, output = HexPost, client = LoopClient, server = LoopServer)]
+// (two `#[middleware]` attributes on one function do not compile at this commit: the macro expands them
+// to `vec![Arc::new(a), , Arc::new(b),]`)
+#[middleware(BlockLayer)]
+pub async fn hx_mw_block(data: Vec<u8>) -> Result<Raw, ServerFnError> {
+    hex_body(data)
+}
+impl AsRaw for HxMwBlock {
+    fn raw(&self) -> &[u8] {
+        &self.data
+    }
+    fn from_raw(v: Vec<u8>) -> Self {
+        HxMwBlock { data: v }
+    }
+}
+
+/// a `ServerFn` implemented by hand, generic in its argument
+#[derive(Clone, Debug, serde::Serialize, serde::Deserialize)]
+pub struct HandEcho<T> {
+    pub p: T,
+    pub mode: u8,
+    pub kind: u8,
+    pub msg: String,
+}
+impl<T> ServerFn for HandEcho<T>
+where
+    T: serde::Serialize + serde::de::DeserializeOwned + Send + 'static,
+{
+    const PATH: &'static str = "/api/hand_echo";
+    type Client = LoopClient;
+    type Server = LoopServer;
+    type Protocol = Http<Json, Cbor>;
+    type Output = T;
+    type Error = ServerFnError;
+    type InputStreamError = ServerFnError;
+    type OutputStreamError = ServerFnError;
+    fn run_body(self) -> impl Future<Output = Result<T, ServerFnError>> + Send {
+        async move {
+            if self.mode == 0 {
+                Ok(self.p)
+            } else {
+                Err(mk_n(VARIANTS[self.kind as usize % VARIANTS.len()], self.msg).unwrap())
+            }
+        }
+    }
+}
+server_fn::inventory::submit! {{
+    ServerFnTraitObj::new::<HandEcho<Payload>>(|req| Box::pin(HandEcho::<Payload>::run_on_server(req)))
+}}
+
+/// every input encoding x every output codec that builds offline
+macro_rules! cross_all {
+    ($m:ident) => {
+        $m! {
+            x_json_json XJsonJson Json Json, x_json_cbor XJsonCbor Json Cbor, x_json_msgpack XJsonMsgpack Json MsgPack,
+            x_json_postcard XJsonPostcard Json Postcard, x_json_rkyv XJsonRkyv Json Rkyv, x_json_serdelite XJsonSerdelite Json SerdeLite,
+            x_geturl_json XGeturlJson GetUrl Json, x_geturl_cbor XGeturlCbor GetUrl Cbor, x_geturl_msgpack XGeturlMsgpack GetUrl MsgPack,
+            x_geturl_postcard XGeturlPostcard GetUrl Postcard, x_geturl_rkyv XGeturlRkyv GetUrl Rkyv, x_geturl_serdelite XGeturlSerdelite GetUrl SerdeLite,
+            x_posturl_json XPosturlJson PostUrl Json, x_posturl_cbor XPosturlCbor PostUrl Cbor, x_posturl_msgpack XPosturlMsgpack PostUrl MsgPack,
+            x_posturl_postcard XPosturlPostcard PostUrl Postcard, x_posturl_rkyv XPosturlRkyv PostUrl Rkyv, x_posturl_serdelite XPosturlSerdelite PostUrl SerdeLite,
+            x_deleteurl_json XDeleteurlJson DeleteUrl Json, x_deleteurl_cbor XDeleteurlCbor DeleteUrl Cbor, x_deleteurl_msgpack XDeleteurlMsgpack DeleteUrl MsgPack,
+            x_deleteurl_postcard XDeleteurlPostcard DeleteUrl Postcard, x_deleteurl_rkyv XDeleteurlRkyv DeleteUrl Rkyv, x_deleteurl_serdelite XDeleteurlSerdelite DeleteUrl SerdeLite,
+            x_patchurl_json XPatchurlJson PatchUrl Json, x_patchurl_cbor XPatchurlCbor PatchUrl Cbor, x_patchurl_msgpack XPatchurlMsgpack PatchUrl MsgPack,
+            x_patchurl_postcard XPatchurlPostcard PatchUrl Postcard, x_patchurl_rkyv XPatchurlRkyv PatchUrl Rkyv, x_patchurl_serdelite XPatchurlSerdelite PatchUrl SerdeLite,
+            x_puturl_json XPuturlJson PutUrl Json, x_puturl_cbor XPuturlCbor PutUrl Cbor, x_puturl_msgpack XPuturlMsgpack PutUrl MsgPack,
+            x_puturl_postcard XPuturlPostcard PutUrl Postcard, x_puturl_rkyv XPuturlRkyv PutUrl Rkyv, x_puturl_serdelite XPuturlSerdelite PutUrl SerdeLite,
+            x_cbor_json XCborJson Cbor Json, x_cbor_cbor XCborCbor Cbor Cbor, x_cbor_msgpack XCborMsgpack Cbor MsgPack,
+            x_cbor_postcard XCborPostcard Cbor Postcard, x_cbor_rkyv XCborRkyv Cbor Rkyv, x_cbor_serdelite XCborSerdelite Cbor SerdeLite,
+            x_msgpack_json XMsgpackJson MsgPack Json, x_msgpack_cbor XMsgpackCbor MsgPack Cbor, x_msgpack_msgpack XMsgpackMsgpack MsgPack MsgPack,
+            x_msgpack_postcard XMsgpackPostcard MsgPack Postcard, x_msgpack_rkyv XMsgpackRkyv MsgPack Rkyv, x_msgpack_serdelite XMsgpackSerdelite MsgPack SerdeLite,
+            x_postcard_json XPostcardJson Postcard Json, x_postcard_cbor XPostcardCbor Postcard Cbor, x_postcard_msgpack XPostcardMsgpack Postcard MsgPack,
+            x_postcard_postcard XPostcardPostcard Postcard Postcard, x_postcard_rkyv XPostcardRkyv Postcard Rkyv, x_postcard_serdelite XPostcardSerdelite Postcard SerdeLite,
+            x_rkyv_json XRkyvJson Rkyv Json, x_rkyv_cbor XRkyvCbor Rkyv Cbor, x_rkyv_msgpack XRkyvMsgpack Rkyv MsgPack,
+            x_rkyv_postcard XRkyvPostcard Rkyv Postcard, x_rkyv_rkyv XRkyvRkyv Rkyv Rkyv, x_rkyv_serdelite XRkyvSerdelite Rkyv SerdeLite,
+            x_serdelite_json XSerdeliteJson SerdeLite Json, x_serdelite_cbor XSerdeliteCbor SerdeLite Cbor, x_serdelite_msgpack XSerdeliteMsgpack SerdeLite MsgPack,
+            x_serdelite_postcard XSerdelitePostcard SerdeLite Postcard, x_serdelite_rkyv XSerdeliteRkyv SerdeLite Rkyv, x_serdelite_serdelite XSerdeliteSerdelite SerdeLite SerdeLite,
+            x_patchjson_putjson XPatchjsonPutjson PatchJson PutJson, x_putjson_patchcbor XPutjsonPatchcbor PutJson PatchCbor,
+            x_patchcbor_json XPatchcborJson PatchCbor Json, x_putcbor_rkyv XPutcborRkyv PutCbor Rkyv,
+            x_patchrkyv_putrkyv XPatchrkyvPutrkyv PatchRkyv PutRkyv, x_putserdelite_patchserdelite XPutserdelitePatchserdelite PutSerdeLite PatchSerdeLite,
+            x_patchmsgpack_putmsgpack XPatchmsgpackPutmsgpack PatchMsgPack PutMsgPack, x_putpostcard_patchpostcard XPutpostcardPatchpostcard PutPostcard PatchPostcard
+        }
+    };
+}
+macro_rules! cross_define {
+    ($( $f:ident $S:ident $in:ident $out:ident ),* $(,)?) => {
+        $( typed_fn!($f, $S, $in, $out); )*
+    };
+}
+cross_all!(cross_define);
 
 // ------------------------------------------------------------------ streaming
 
